@@ -225,7 +225,7 @@ class Accumulate(Harness):
             for j in range(counts[f]):
                 ap = z3.BitVec(f"apid{f}_{j}", W)
                 ctx.assume(z3.Or(ap == A, ap == B))
-                val = lib.common.IntParameter(1000 + serial, 5000 + serial)
+                val = lib.common.IntParameter(1000 + serial, (5000 + serial) if serial else 0)      # the first packet's raw value is 0 (falsy)
                 items = {"X": val}
                 if mismatch and serial == sum(counts) - 1:
                     items = {"X": lib.common.IntParameter(60000, 64000), "EXTRA": lib.common.IntParameter(7)}
@@ -283,7 +283,7 @@ class Accumulate(Harness):
             if mismatch and ser == sum(counts) - 1:
                 want.setdefault(a, []).append(64000 if use_raw else 60000)
             else:
-                want.setdefault(a, []).append((5000 + ser) if use_raw else (1000 + ser))
+                want.setdefault(a, []).append(((5000 + ser) if ser else 0) if use_raw else (1000 + ser))
         got = {}
         ok_shape = isinstance(out, dict)
         if ok_shape:
@@ -292,7 +292,7 @@ class Accumulate(Harness):
                 arr = ds.get("X")
                 got[a_c] = [bv.model_int(m, x) if isinstance(x, bv.SymInt) else x for x in (arr[1][1] if arr else [])]
         obl.append((f"rows per APID in stream order: want {want}, got {got}", ok_shape and got == want))
-        return result("dataset", obl, observe={"exc": None, "cls": "ran", "rows": {str(k): v for k, v in sorted(got.items())}},
+        return result("dataset", obl, observe={"exc": None, "cls": "ran", "row_counts": {str(k): len(v) for k, v in sorted(got.items())}},
                       inputs={"nfiles": nfiles, "counts": counts, "mismatch": mismatch, "raw": use_raw, "apids": apv})
 
 
@@ -433,11 +433,13 @@ def concrete(req):
         return {"cls": "ran", "dtype": xarr._get_minimum_numpy_datatype("P", d, use_raw_value=raw), "vclass": vc}
     if k == "nostrip":
         return {"cls": "ran"}
-    # accumulate: the real loop with real numpy on real files holding real packets
+    # accumulate: the real loop with real numpy / xarray on real files holding real packets.  X is calibrated (value = 2.5 + 0.5 * raw) and the
+    # packet with serial number s carries raw = s, so the first packet has a FALSY raw value with a non-zero derived value.
     import warnings
     from space_packet_parser import xarr
-    param = lib.parameters.Parameter("X", lib.parameter_types.IntegerParameterType("T", lib.encodings.IntegerDataEncoding(16, "unsigned",
-                                     default_calibrator=None)))
+    K = lib.calibrators
+    cal = K.PolynomialCalibrator([K.PolynomialCoefficient(2.5, 0), K.PolynomialCoefficient(0.5, 1)])
+    param = lib.parameters.Parameter("X", lib.parameter_types.IntegerParameterType("T", lib.encodings.IntegerDataEncoding(16, "unsigned", default_calibrator=cal)))
     hdr = lib.parameters.Parameter("H", lib.parameter_types.BinaryParameterType("HT", lib.encodings.BinaryDataEncoding(fixed_size_in_bits=48)))
     extra = lib.parameters.Parameter("EXTRA", lib.parameter_types.IntegerParameterType("T2", lib.encodings.IntegerDataEncoding(8, "unsigned")))
     root = lib.containers.SequenceContainer("CCSDSPacket", [hdr, param], abstract=False)
@@ -451,8 +453,7 @@ def concrete(req):
         for f in range(i["nfiles"]):
             blob = b""
             for j in range(i["counts"][f]):
-                x = 1000 + serial
-                body = x.to_bytes(2, "big")
+                body = serial.to_bytes(2, "big")
                 if i["mismatch"] and serial == total - 1:
                     body = (60000).to_bytes(2, "big") + b"\x07"
                 blob += bytes(lib.packets.create_ccsds_packet(body, apid=i["apids"][serial]))
@@ -466,10 +467,8 @@ def concrete(req):
                 ds = xarr.create_dataset(files, d, use_raw_values=i["raw"])
             except Exception as e:   # noqa: BLE001
                 return {"cls": "ran", "exc": type(e).__name__}
-            rows = {str(a): [int(v) for v in ds[a]["X"].values] for a in sorted(ds)}
-    if i["raw"]:
-        rows = {a: [v + 4000 for v in vs] for a, vs in rows.items()}       # the stub packets carry raw = value + 4000; real ones raw == value
-    return {"cls": "ran", "exc": None, "rows": rows}
+            rows = {str(a): [float(v) for v in ds[a]["X"].values] for a in sorted(ds)}
+    return {"cls": "ran", "exc": None, "row_counts": {a: len(v) for a, v in rows.items()}, "rows_real": rows}
 
 
 def judge(req, got):
@@ -529,18 +528,17 @@ def judge(req, got):
         if _plain(cells[0]) != _plain(parsed[0]):
             return "reproduced", f"{'binary' if which == 0 else 'string'} field {user.hex()}: cell {_plain(cells[0])} != parsed {_plain(parsed[0])}"
         return "not-reproduced", "cell equals parsed value"
-    # accumulate
+    # accumulate: expected rows of the REAL run (raw = serial, value = 2.5 + 0.5 * raw; the mismatching packet carries raw 60000)
     want = {}
+    total = sum(i["counts"])
     for ser, a in enumerate(i["apids"]):
-        want.setdefault(str(a), []).append((5000 + ser) if i["raw"] else (1000 + ser))
+        raw = 60000 if (i["mismatch"] and ser == total - 1) else ser
+        want.setdefault(str(a), []).append(float(raw) if i["raw"] else 2.5 + 0.5 * raw)
     bad_expected = i["mismatch"] and i["apids"][-1] in i["apids"][:-1]
     if bad_expected:
         return ("not-reproduced", "rejected") if got.get("exc") == "ValueError" else ("reproduced", f"field-set mismatch within APID {i['apids'][-1]} not rejected: {got}")
-    if i["mismatch"]:
-        # the last packet is alone in its APID with an extra field: legitimate
-        want[str(i["apids"][-1])] = [60000 + (4000 if i["raw"] else 0)]
-    if got.get("exc") or got.get("rows") != want:
-        return "reproduced", f"files {i['counts']} apids {i['apids']}: rows {got.get('rows')} exc {got.get('exc')}; expected {want}"
+    if got.get("exc") or got.get("rows_real") != want:
+        return "reproduced", f"files {i['counts']} apids {i['apids']} raw={i['raw']}: rows {got.get('rows_real')} exc {got.get('exc')}; expected {want}"
     return "not-reproduced", "rows per APID in order"
 
 
